@@ -89,20 +89,25 @@ theorem c19_gates_first (w : World) (op : Op) (h : op.mayMutate w = false) :
     (step w op).world.fs = w.fs ∧ ∀ e ∈ (step w op).effects, e.isMutation = false :=
   readonly_ops w op h
 
-/-- A refused mutating operation also leaves the tracked documents (contents and versions) and
-the audit log untouched; only the session table may have been pruned / renewed. -/
+/-- A refused mutating operation also leaves the tracked documents (contents and versions), the
+retired-version floor and the audit log untouched; only the session table may have been pruned /
+renewed. -/
 theorem c19_refused_keeps_documents (w : World) (tok : Nat) (p n : List Char) (e : Nat)
     (c : List Char) (oc : Option (List Char)) (d we : Bool)
     (h : (we && liveEditor w.inner tok w.now) = false) :
     ∀ op ∈ [Op.apply tok p e c we, Op.create tok p d oc we, Op.rename tok p n we, Op.delete tok p we],
-      (step w op).world.inner.docs = w.inner.docs ∧ (step w op).world.inner.audit = w.inner.audit := by
+      (step w op).world.inner.docs = w.inner.docs ∧ (step w op).world.inner.floor = w.inner.floor ∧
+      (step w op).world.inner.audit = w.inner.audit := by
   intro op hop
+  have key : ∀ o : Out, Quiet w o → o.world.inner.docs = w.inner.docs ∧
+      o.world.inner.floor = w.inner.floor ∧ o.world.inner.audit = w.inner.audit :=
+    fun o hq => ⟨congrArg Prod.fst hq.2.1, congrArg Prod.snd hq.2.1, hq.2.2.1⟩
   simp only [List.mem_cons, List.not_mem_nil, or_false] at hop
   rcases hop with rfl | rfl | rfl | rfl
-  · exact ⟨(applySource_quiet w tok p e c we h).2.1, (applySource_quiet w tok p e c we h).2.2.1⟩
-  · exact ⟨(createEntry_quiet w tok p d oc we h).2.1, (createEntry_quiet w tok p d oc we h).2.2.1⟩
-  · exact ⟨(renameEntry_quiet w tok p n we h).2.1, (renameEntry_quiet w tok p n we h).2.2.1⟩
-  · exact ⟨(deleteEntry_quiet w tok p we h).2.1, (deleteEntry_quiet w tok p we h).2.2.1⟩
+  · exact key _ (applySource_quiet w tok p e c we h)
+  · exact key _ (createEntry_quiet w tok p d oc we h)
+  · exact key _ (renameEntry_quiet w tok p n we h)
+  · exact key _ (deleteEntry_quiet w tok p we h)
 
 /-- Non-vacuity of the gate theorems: on a one-file project a viewer (token 0), an unknown token
 (7) and an editor with writes disabled are refused without any change, and the same rename by the
